@@ -59,6 +59,9 @@ pub struct EventDev {
     pub fired: u64,
     /// completions in order: (head, bytes written, address of the buffer)
     pub log: Vec<(u16, Vec<u8>, u64)>,
+    /// for the log entry of the same index: the length the device *reported* when it exceeds the
+    /// buffer (a device overstating what it wrote), else 0
+    pub claimed: Vec<u32>,
     /// every posting: (head, addr, len)
     pub postings: Vec<(u16, u64, u32)>,
     pub errors: Vec<String>,
@@ -97,9 +100,25 @@ impl EventDev {
                 data[..4].copy_from_slice(&code.to_le_bytes());
             }
         }
-        qs.complete(w, self.q, &c, &data);
+        // one completion in 64 on a plain stocked queue overstates its length: the buffer's size plus
+        // one, a multiple of 65536 plus what was written, or all ones
+        let claim = match self.mode {
+            Target::Owning(..) if len % 64 == 63 => match (len >> 6) % 4 {
+                0 => cap as u32 + 1,
+                1 => 0x1_0000 + n as u32,
+                2 => 0x3_0000 + n as u32,
+                _ => u32::MAX,
+            },
+            _ => 0,
+        };
+        if claim as usize > cap {
+            qs.complete_claim(w, self.q, &c, &data, claim);
+        } else {
+            qs.complete(w, self.q, &c, &data);
+        }
         let va = self.vaddr_of.get(&c.head).copied().unwrap_or(0);
         self.log.push((c.head, data, va));
+        self.claimed.push(if claim as usize > cap { claim } else { 0 });
         true
     }
 }
@@ -173,6 +192,8 @@ enum Got {
     /// delivered, but the driver-level decoding refused it (sound: unknown code)
     Refused(Vec<u8>),
     Failed(String),
+    /// the handler was not called and the poll returned an error
+    PollErr,
 }
 
 trait Poller {
@@ -208,6 +229,7 @@ impl Poller for OwningPoller {
         };
         match (seen, r, mode) {
             (None, Ok(None), _) => Ok(Got::Nothing),
+            (None, Err(_), _) => Ok(Got::PollErr),
             (Some(b), Ok(Some(n)), 0) if n as usize == b.len() => Ok(Got::Bytes(b)),
             (Some(b), Ok(None), 1) => Ok(Got::Bytes(b)),
             (Some(b), Err(Error::InvalidParam), 2) => Ok(Got::Bytes(b)),
@@ -315,7 +337,7 @@ pub fn check(c: &ECase, st: &mut Stats) -> Result<(), String> {
     let dev = Shared::install(SimDev::new(
         nq,
         c.policy,
-        EventDev { q: evq, posted: vec![], fired: 0, log: vec![], postings: vec![], errors: vec![], mode: c.target, other_chains: 0, vaddr_of: Default::default() },
+        EventDev { q: evq, posted: vec![], fired: 0, log: vec![], claimed: vec![], postings: vec![], errors: vec![], mode: c.target, other_chains: 0, vaddr_of: Default::default() },
     ));
     let (mut poller, n, bsize): (Box<dyn Poller>, usize, usize) = match c.target {
         Target::Owning(nsel, bsel) => {
@@ -381,7 +403,17 @@ pub fn check(c: &ECase, st: &mut Stats) -> Result<(), String> {
             return Ok(false);
         }
         let (head, bytes, addr) = dev.with(|d| d.h.log[*next].clone());
+        let claimed = dev.with(|d| d.h.claimed.get(*next).copied().unwrap_or(0));
         match (&got, c.target) {
+            // The device reported more bytes than the buffer holds. Nothing can be delivered that is
+            // both "exactly the bytes the device wrote" and "not more than the buffer holds": an
+            // error, no delivery, or the whole buffer (clamped) are accepted; a shorter delivery
+            // presents a length the device never reported. The buffer must come back either way.
+            (Got::PollErr | Got::Nothing, _) if claimed != 0 => {}
+            (Got::Bytes(b), Target::Owning(_, bsel)) if claimed != 0 && b.len() == (match bsel { 0 => 8, 1 => 64, _ => 512 }) && b[..bytes.len()] == bytes[..] => {}
+            (g, _) if claimed != 0 => {
+                return Err(format!("{}: the device reported {} bytes for buffer {} of {} bytes ({} really written); the poll delivered {:?}", what, claimed, head, addr_of.get(&head).map(|x| x.1).unwrap_or(0), bytes.len(), match g { Got::Bytes(b) => format!("{} bytes as a valid event", b.len()), o => format!("{:?}", o) }))
+            }
             (Got::Bytes(b), _) if *b == bytes => {}
             (Got::Bytes(b), Target::Sound) if bytes.len() == 8 && b[..] == bytes[..] => {}
             (Got::Refused(_), Target::Sound) => {
